@@ -32,7 +32,10 @@ RULE = ("classes: (a) the mutate suite's collection-heavy classes with its op hi
         "(copy/deepcopy/pickle in any order) whose every link must succeed and whose result must == x (model: composition of "
         "copyI/deepcopyI/pickleI); an oracle-only stream of classes with Constant attributes (not in the model's declaration "
         "language): same measurements on the real code, assignment to the constant on fresh instance and copies; a copy "
-        "operation that raises anything but a can't-pickle error is a failure; fields with defaults (0, 0.0, '', False, [], {}, and truthy ones) on 30% of the "
+        "operation that raises anything but a can't-pickle error is a failure; typed wrappers nested at depth >= 2 below a Map / Array (Map->Array->leaf, "
+        "Map->Deque->leaf, Map->Map->leaf, Array->Map->Array->leaf ..., every level non-empty) with Structure or untyped "
+        "mutable leaves; the alias probe walks 5 levels and also makes a VALID assignment to every scalar attribute of each "
+        "leaf structure; fields with defaults (0, 0.0, '', False, [], {}, and truthy ones) on 30% of the "
         "spelling classes plus a directed stream (plain / immutable / _enable_undefined_value / _ignore_none): default left "
         "to apply vs the same value passed explicitly vs assigned later vs explicit None; a defaulted field absent from "
         "__dict__ is keyed by how it came to be absent (@explicit-none, @post-history known; @constructor is not); wrapper "
@@ -59,7 +62,7 @@ def pre_build():
 
 
 def cases(rng, tier):
-    return P.gen_cases(rng, tier, 260 if tier == "quick" else 2100)
+    return P.gen_cases(rng, tier, 240 if tier == "quick" else 1900)
 
 
 def search_cases(rng, tier):
